@@ -57,6 +57,13 @@ func main() {
 				}
 			}
 		}
+	case "race":
+		seed, _ := strconv.ParseUint(os.Args[2], 10, 64)
+		rounds, _ := strconv.Atoi(os.Args[3])
+		workers, _ := strconv.Atoi(os.Args[4])
+		out.Flush()
+		rc := raceMain(seed, rounds, workers)
+		os.Exit(rc)
 	case "replay":
 		sc := bufio.NewScanner(os.Stdin)
 		sc.Buffer(make([]byte, 1<<20), 1<<26)
